@@ -2,10 +2,10 @@ from checks.common import *
 import os, re, shutil, json, hashlib
 
 SPEC = {
-    "translators": ["gen_fold", "gen_bounds", "gen_fastscan"],
+    "translators": ["gen_fold", "gen_bounds", "gen_fastscan", "gen_hoist"],
     "bins": ["c03"],
     "model_targets": ["Opt/OptCheck.vo"],
-    "proof_targets": ["Opt/FoldProofs.vo", "Opt/BoundsProofs.vo", "Opt/FastScanProofs.vo", "Pat/TeddyProofs.vo"],
+    "proof_targets": ["Opt/FoldProofs.vo", "Opt/BoundsProofs.vo", "Opt/FastScanProofs.vo", "Opt/HoistProofs.vo", "Pat/TeddyProofs.vo"],
     "assumptions": [
         "correctly rounded f64 +,-,* of integer-valued doubles = round-to-nearest-even of the exact result to 53 bits (IEEE 754); `as f64` / `as i64` as the Rust reference defines them; both are compared with the machine's f64 on generated operands (KR53/KF64 cases)",
         "run-time integer semantics of the emitted code (wrapping i64.add/sub/mul, 0-x, shifts guarded by `rhs <s 64`, and/or catching undefined) are hand-modelled from emit.rs and tied by K (the `filesize - filesize + c` twin of every generated condition)",
@@ -27,7 +27,11 @@ RULE = ("one PRNG; 45 % fold cases: conditions built from + - * (n-ary), unary -
         "with the tables the compiler attached to the patterns; 20 % scan cases: rule sets of 1-4 rules (Teddy) and 40-70 rules (> 64 atoms, Aho-Corasick), "
         "text/hex/regexp patterns incl. 1-3 byte atoms and alternatives found out of offset order, shared pattern texts, every kind of use "
         "($p, #p, @p, !p, at, in, N of, of..in, for..of, loops with invariants, rule references, filesize/header conjuncts), buffers of 8, 19-64 and 4096+ bytes, "
-        "x condition_optimization on/off x fast_scan on/off x Teddy on/off. Non-trivial: every case (distinct by source text / operands).")
+        "x condition_optimization on/off x fast_scan on/off x Teddy on/off; 1/8 extra: `or` chains of 2-6 `matches` whose left operands are the same or different "
+        "globals, `with` identifiers, loop variables, module fields, function calls and literals (optionally inside `with` / `for any .. in`), regexps aimed at the "
+        "operand's own value or at another operand's, compared with the verdict of every operand alone; 1/8 extra: loops (range, tuple, map, array) whose body has "
+        "0-3 hoistable invariants and one nested variable-owning statement that uses the loop variable (for..in range/tuple/map, for..of, of with in/at, with, of "
+        "over an expression tuple), compiled with and without condition_optimization, 6 buffers. Non-trivial: every case (distinct by source text / operands).")
 
 KNOWN_DUMP_CLASSES = {"beyond-2^53", "i64-overflow"}   # classes of the repaired finding 10: a difference is a regression
 
@@ -39,6 +43,8 @@ def classify(case):
         return "C03:const-fold-f64:" + c if c in ("beyond-2^53", "i64-overflow") else "C03:const-fold:" + c
     if k == "bounds":
         return "C03:pruning:" + case.get("class", "?")
+    if k in ("reset", "hoist"):
+        return "C03:" + (case.get("class") or k + ":unclassified")
     if k == "scan":
         tags = [t for t in (case.get("class") or "").split("+") if t] or ["scan:unclassified"]
         # several things can be wrong in one scan: report the first one that is not a recorded finding
